@@ -93,6 +93,22 @@ impl ColumnBatchBuilder {
     }
 }
 
+#[cfg(hecs_verif)]
+impl ColumnBatchBuilder {
+    /// (type id, fill) per declared column, and the target fill
+    pub fn verif_dump(&self) -> (alloc::vec::Vec<(TypeId, u32)>, u32) {
+        let cols = match &self.archetype {
+            Some(a) => a
+                .types()
+                .iter()
+                .map(|ty| (ty.id(), self.fill.get(&ty.id()).copied().unwrap_or(0)))
+                .collect(),
+            None => alloc::vec::Vec::new(),
+        };
+        (cols, self.target_fill)
+    }
+}
+
 impl Drop for ColumnBatchBuilder {
     fn drop(&mut self) {
         if let Some(archetype) = self.archetype.take() {
